@@ -52,27 +52,28 @@ type LoopSpec struct {
 }
 
 type Contract struct {
-	FuncPat     string // name as written
-	Mode        Mode
-	ModeSet     bool
-	Inline      bool
-	Trusted     bool
-	Lets        []Clause // Label = name
-	Requires    []Clause
-	Locals      []string // local variable names in declaration order when the contract was written (rename detection)
-	ClosureInv  []Clause // holds between complete calls of a range-over-func body closure (see iteratorCall)
-	Captures    []Clause // facts about captured variables: proved where the closure is created, assumed at its entry
-	Ensures     []Clause
-	Assigns     []string
-	HasAssigns  bool
-	Loops       map[int]*LoopSpec
-	Rels        []Clause
-	Chains      []Chain
-	PathKeys    []Clause            // integer expressions whose (constant) value at a return is appended to obligation names
-	CallAssumes map[string][]Clause // callee name -> assumptions made at its call sites (documented, unproved)
-	Params      map[string]string
-	Line        int
-	Opts        map[string]string
+	FuncPat       string // name as written
+	Mode          Mode
+	ModeSet       bool
+	Inline        bool
+	Trusted       bool
+	Lets          []Clause // Label = name
+	Requires      []Clause
+	Locals        []string // local variable names in declaration order when the contract was written (rename detection)
+	YieldRequires []Clause // must hold whenever the sequence closure calls yield (what may be delivered)
+	ClosureInv    []Clause // holds between complete calls of a range-over-func body closure (see iteratorCall)
+	Captures      []Clause // facts about captured variables: proved where the closure is created, assumed at its entry
+	Ensures       []Clause
+	Assigns       []string
+	HasAssigns    bool
+	Loops         map[int]*LoopSpec
+	Rels          []Clause
+	Chains        []Chain
+	PathKeys      []Clause            // integer expressions whose (constant) value at a return is appended to obligation names
+	CallAssumes   map[string][]Clause // callee name -> assumptions made at its call sites (documented, unproved)
+	Params        map[string]string
+	Line          int
+	Opts          map[string]string
 }
 
 type Chain struct {
@@ -109,7 +110,7 @@ type ContractFile struct {
 	Lemmas    []*Lemma
 }
 
-var kwRe = regexp.MustCompile(`^(func|mode|inline|trusted|param|let|requires|ensures|assigns|loop|invariant|modifies|decreases|rel|chain|assume_at_call|pathkey|spec|lemma|opt|captures|closure_inv|locals)\b`)
+var kwRe = regexp.MustCompile(`^(func|mode|inline|trusted|param|let|requires|ensures|assigns|loop|invariant|modifies|decreases|rel|chain|assume_at_call|pathkey|spec|lemma|opt|captures|closure_inv|locals|yield_requires)\b`)
 
 var unknownDirRe = regexp.MustCompile(`^[a-z_]+\s+[A-Za-z_(\[!*"0-9]`)
 
@@ -305,7 +306,7 @@ func ParseContracts(path string) (*ContractFile, error) {
 					return nil, err
 				}
 				cur.Lets = append(cur.Lets, Clause{Label: strings.TrimSpace(rest[:i]), Src: rest, Expr: e, Line: l.line})
-			case "requires", "ensures", "invariant", "decreases", "rel", "captures", "closure_inv":
+			case "requires", "ensures", "invariant", "decreases", "rel", "captures", "closure_inv", "yield_requires":
 				label := ""
 				if strings.HasPrefix(rest, "[") {
 					j := strings.Index(rest, "]")
@@ -328,6 +329,8 @@ func ParseContracts(path string) (*ContractFile, error) {
 					cur.Captures = append(cur.Captures, c)
 				case "closure_inv":
 					cur.ClosureInv = append(cur.ClosureInv, c)
+				case "yield_requires":
+					cur.YieldRequires = append(cur.YieldRequires, c)
 				case "ensures":
 					cur.Ensures = append(cur.Ensures, c)
 				case "rel":
